@@ -630,6 +630,8 @@ func (s *Service) ListenAndServe(url string, options ...nats.Option) error {
 	nc, err := nats.Connect(url, opts...)
 	if err != nil {
 		s.errorf("Failed to connect to NATS server: %s", err)
+		// The service never started. Let it be served again.
+		atomic.StoreInt32(&s.state, stateStopped)
 		return err
 	}
 
@@ -670,6 +672,8 @@ func (s *Service) serve(nc Conn) error {
 	// for all the event listeners.
 	err := s.ValidateListeners()
 	if err != nil {
+		// The service never started. Let it be served again.
+		atomic.StoreInt32(&s.state, stateStopped)
 		return err
 	}
 
